@@ -550,10 +550,42 @@ def task_protonate_calls(pr, repo):
         pr.explore(ex, thunk, 'protonate calls %s' % ci.name)
 
 
+def task_pipeline_order(pr, repo):
+    """PO: the electron-count contract (EC) reads the pi-electron tables: the protonation of all atoms (--protonate-all) and of the group
+    atoms runs only AFTER the bonds are made and the pi-electron information has been applied."""
+    ex = Executor(repo)
+    fi = repo.func('propka.hydrogens.setup_bonding_and_protonation')
+    pr.under_contract(fi)
+    for pall in (False, True):
+        def thunk(ex, ctx, pall=pall):
+            order = []
+            bm = record('bondmaker', None)
+            from pyvc.core import Builtin
+            bm.attrs['add_pi_electron_information'] = Builtin('pi', lambda ex_, m: order.append('pi-electrons'))
+            ex.contracts['propka.hydrogens.setup_bonding'] = lambda ex_, c_, f_, a, k, so: (order.append('bonds'), bm)[1]
+            ex.contracts['propka.bonds.BondMaker.add_pi_electron_information'] = lambda ex_, c_, f_, a, k, so: order.append('pi-electrons')
+            ex.contracts['propka.hydrogens.set_ligand_atom_names'] = lambda ex_, c_, f_, a, k, so: order.append('names')
+            ex.contracts['propka.protonate.Protonate.protonate'] = lambda ex_, c_, f_, a, k, so: order.append('protonate')
+            ex.contracts['propka.protonate.Protonate.__init__'] = lambda ex_, c_, f_, a, k, so: None
+            mol = record('mol', None, options=record('o', None, protonate_all=pall))
+            ex.call_function(fi, [mol])
+            want = ['bonds', 'pi-electrons'] + (['protonate'] if pall else [])
+            got = [x for x in order if x != 'names']
+            ctx.oblige('PO[--protonate-all %s]: bonds, then pi-electron tables, then (only with the option) the protonation of all atoms'
+                       % pall, got == want)
+        pr.explore(ex, thunk, 'setup_bonding_and_protonation order %s' % pall)
+
+
+def task_hydrogen_names(pr, repo):
+    # which input records ARE hydrogens (old-style names such as 1HD2 included): C07-EL
+    from . import C07
+    C07.task_element(pr, repo)
+
+
 def run(pr, repo):
     ground_expected(pr, repo)
     pr.parallel([(task_bond_distance, ()), (task_orthogonal, ()), (task_add_proton, ()), (task_electron_count, ()), (task_counts, ()), (task_obtuse, ()),
-                 (task_equivariance, ()), (C20.task_rotation, ()), (reader.task_nterm, ()), (task_protonate_calls, ())])
+                 (task_equivariance, ()), (C20.task_rotation, ()), (reader.task_nterm, ()), (task_protonate_calls, ()), (task_pipeline_order, ()), (task_hydrogen_names, ())])
     pr.assumptions += ['"regular covalent geometry" is encoded as: existing bonds longer than 0.5 A; 2-bond case: cos(angle) > -0.9; '
                        '3-bond case: cos(angle) in (-0.6, 0.2)', 'sequentially built hydrogens (Arg/Asn/Gln NH2, methyl-like cases) and the '
                        '1-bond placements that go through rotate_vector_around_an_axis: at least 0.5 A apart is BOUNDED only (monitor); '
